@@ -77,6 +77,8 @@ def run_history(ctx, hseed, nsteps, mon_factory=None):
     nontrivial = empty_md_then_exec and fan and max(fan.values()) >= 3
     ctx.case("".join(kinds), nontrivial=bool(nontrivial))
     ctx.count("histories")
+    for mk, mv in hist.mode_counts.items():
+        ctx.count("supply:" + mk, mv)
     ctx.count("streams-created", len(hist.streams))
     for kk in set(kinds):
         ctx.count("ops:" + kk, kinds.count(kk))
